@@ -1,4 +1,5 @@
 import Secp.Proofs.RandomSpec
+import Secp.Proofs.MiscTies
 /-!
 # C18 — random scalars are non-zero, canonical and correct for every entropy stream
 
@@ -20,6 +21,31 @@ theorem random_spec (s : Bytes) (hb : IsBytes s) :
         blockVal s k % N ≠ 0 ∧ sOk m ∧ (sVal m).val = blockVal s k % N ∧ 1 ≤ (sVal m).val ∧ (sVal m).val ≤ N - 1) ∧
     (∀ c, Hand.Scalar.random s = (none, c) → ∀ j, 32 * (j + 1) ≤ s.length → blockVal s j % N = 0) :=
   _root_.random_spec s hb
+
+/-- **C18 for the `Random` regenerated from `scalar.go` on this run** (`GenMisc.scalar_random`: the loop `for IsFEZero(&m) == 1`,
+`io.ReadFull(rand.Reader, buf[:])` with the panic on its error, `BytesToNonMontgomery`, `Reduce`, `ToMontgomery`, the final
+copy into the receiver). The entropy source is the stream `rng` of bytes it will deliver; `fuel` bounds the iterations of the
+loop, whose number the translator does not know. For every stream and every sufficient bound the regenerated function
+returns what the model returns — scalar and unread rest of the stream — and panics exactly when the model does; so the
+result is the first 32-byte block that is non-zero modulo `n`, reduced, canonical and never zero -/
+theorem random_regenerated (s0 : L4) (rng : Bytes) (hb : IsBytes rng) (fuel : Nat) (hf : rng.length / 32 + 2 ≤ fuel) :
+    (∀ m rest, GenMisc.scalar_random fuel s0 rng = some (m, rest) →
+      ∃ k, 32 * (k + 1) ≤ rng.length ∧ rest = rng.drop (32 * (k + 1)) ∧ (∀ j, j < k → blockVal rng j % N = 0) ∧
+        sOk m ∧ (sVal m).val = blockVal rng k % N ∧ 1 ≤ (sVal m).val ∧ (sVal m).val ≤ N - 1) ∧
+    (GenMisc.scalar_random fuel s0 rng = none → ∀ j, 32 * (j + 1) ≤ rng.length → blockVal rng j % N = 0) := by
+  rw [RandomTie.random_tie s0 rng fuel hf]
+  obtain ⟨hsome, hnone⟩ := _root_.random_spec rng hb
+  cases hr : Hand.Scalar.random rng with
+  | mk o c =>
+    cases o with
+    | none =>
+      refine ⟨fun m rest h => by simp at h, fun _ => hnone c hr⟩
+    | some m =>
+      refine ⟨fun m' rest h => ?_, fun h => by simp at h⟩
+      simp only [Option.some.injEq, Prod.mk.injEq] at h
+      obtain ⟨rfl, rfl⟩ := h
+      obtain ⟨k, h1, h2, h3, _, h5, h6, h7, h8⟩ := hsome m c hr
+      exact ⟨k, h1, by rw [h2], h3, h5, h6, h7, h8⟩
 
 /-- one conditional subtraction suffices: `2^256 < 2n`, so `Reduce` maps every 32-byte block to its residue mod n -/
 theorem one_subtraction_suffices : 2 ^ 256 < 2 * N := by decide
